@@ -112,7 +112,7 @@ def run(ctx):
         render_all(ctx, d, {'history': list(history), 'render again': name})
     ctx.bump('history-steps', len(history))
     # code points
-    C02.sweep(ctx)
+    C02.sweep(ctx, wellformed_only=True)
     # C02's sweep reports round-trip differences too; for C01 only ill-formedness counts
     ctx.violations = [v for v in ctx.violations if v['what'] == 'not-well-formed']
     ctx.known_hit = {k: v for k, v in ctx.known_hit.items()}
